@@ -437,7 +437,8 @@ package spine
 //@   ensures[C13] recorded: has(c.reqMsgCache, msgCounter) && c.reqMsgCache[msgCounter] == hash
 //@   ensures[C13] bounded: len(c.reqMsgCache) <= 21
 //@   ensures[C13] evicts-only-when-full: old(len(c.reqMsgCache)) <= 20 ==> forall k model.MsgCounterType :: k != msgCounter ==> has(c.reqMsgCache, k) == old(has(c.reqMsgCache, k)) && c.reqMsgCache[k] == old(c.reqMsgCache[k])
-//@   ensures[C13] evicts-oldest: old(len(c.reqMsgCache)) > 20 ==> exists o model.MsgCounterType :: old(has(c.reqMsgCache, o)) && (forall k model.MsgCounterType :: old(has(c.reqMsgCache, k)) ==> o <= k) && forall k model.MsgCounterType :: k != msgCounter && k != o ==> has(c.reqMsgCache, k) == old(has(c.reqMsgCache, k)) && c.reqMsgCache[k] == old(c.reqMsgCache[k])
+//@   ensures[C13] evicts-oldest: old(len(c.reqMsgCache)) > 20 ==> exists o model.MsgCounterType :: old(has(c.reqMsgCache, o)) && (forall k model.MsgCounterType :: old(has(c.reqMsgCache, k)) ==> o <= k) && (!has(c.reqMsgCache, o) || o == msgCounter)
+//@   ensures[C13] evicts-one-existing: old(len(c.reqMsgCache)) > 20 ==> exists o model.MsgCounterType :: old(has(c.reqMsgCache, o)) && forall k model.MsgCounterType :: k != msgCounter && k != o ==> has(c.reqMsgCache, k) == old(has(c.reqMsgCache, k)) && c.reqMsgCache[k] == old(c.reqMsgCache[k])
 //@   modifies map(gomap[model.MsgCounterType]string), held
 //@   loop 0 invariant collected: forall k model.MsgCounterType :: $visited[k] ==> exists i int :: {keys[i]} 0 <= i && i < len(keys) && keys[i] == k
 //@   loop 0 invariant only-keys: forall i int :: 0 <= i && i < len(keys) ==> has(c.reqMsgCache, cast(model.MsgCounterType, keys[i]))
